@@ -19,20 +19,25 @@ def _run_one(m, prop):
     d = tempfile.mkdtemp(prefix="vstat_selftest_")
     try:
         shutil.copytree(os.path.join(REPO, "virocon"), os.path.join(d, "virocon"), ignore=shutil.ignore_patterns("__pycache__"))
-        p = os.path.join(d, "virocon", m["file"])
-        with open(p, encoding="utf-8") as fh:
-            src = fh.read()
-        if src.count(m["old"]) != 1:
-            return {"id": m["id"], "status": "skipped", "why": f"pattern occurs {src.count(m['old'])} times in {m['file']} (source changed)"}
-        new = src.replace(m["old"], m["new"])
-        with warnings.catch_warnings():
-            warnings.simplefilter("ignore")
-            try:
-                compile(new, p, "exec")
-            except SyntaxError as e:
-                return {"id": m["id"], "status": "skipped", "why": f"variant does not compile: {e}"}
-        with open(p, "w", encoding="utf-8") as fh:
-            fh.write(new)
+        if m.get("patch"):
+            r = subprocess.run(["git", "apply", m["patch"]], cwd=d, capture_output=True, text=True)
+            if r.returncode != 0:
+                return {"id": m["id"], "status": "skipped", "why": f"patch does not apply (source changed): {r.stderr.strip()[:120]}"}
+        else:
+            p = os.path.join(d, "virocon", m["file"])
+            with open(p, encoding="utf-8") as fh:
+                src = fh.read()
+            if src.count(m["old"]) != 1:
+                return {"id": m["id"], "status": "skipped", "why": f"pattern occurs {src.count(m['old'])} times in {m['file']} (source changed)"}
+            new = src.replace(m["old"], m["new"])
+            with warnings.catch_warnings():
+                warnings.simplefilter("ignore")
+                try:
+                    compile(new, p, "exec")
+                except SyntaxError as e:
+                    return {"id": m["id"], "status": "skipped", "why": f"variant does not compile: {e}"}
+            with open(p, "w", encoding="utf-8") as fh:
+                fh.write(new)
         r = subprocess.run([os.path.join(HERE, "check"), prop, "--root", d, "--no-write", "--tier", "quick"], capture_output=True, text=True, timeout=300)
         fails = [l.strip() for l in r.stdout.splitlines() if l.strip().startswith("FAIL ")]
         fired = sorted({l.split()[1] for l in fails})
@@ -42,8 +47,29 @@ def _run_one(m, prop):
         shutil.rmtree(d, ignore_errors=True)
 
 
-def run_for_property(prop, rep, seed=0, jobs=16):
+def seeded_variants():
+    """Independently written breaking changes kept under /verif/seeded/<id>/ (patch.diff, meta.json, verif.json)."""
+    import json
+    out = []
+    base = os.path.join(HERE, "seeded")
+    for name in sorted(os.listdir(base)) if os.path.isdir(base) else []:
+        vj = os.path.join(base, name, "verif.json")
+        pf = os.path.join(base, name, "patch.diff")
+        if os.path.exists(vj) and os.path.exists(pf):
+            with open(vj) as fh:
+                v = json.load(fh)
+            out.append(dict(id=f"seed:{name}", props=sorted(v["detected_by"]), file="(patch)", patch=pf, expect="fail",
+                            rules=v["detected_by"], what=v.get("summary", name)))
+    return out
+
+
+def all_variants():
     from .mutations import MUTATIONS
+    return list(MUTATIONS) + seeded_variants()
+
+
+def run_for_property(prop, rep, seed=0, jobs=16):
+    MUTATIONS = all_variants()
     muts = [m for m in MUTATIONS if prop in m["props"]]
     if not muts:
         rep.extra["selftest"] = {"variants": 0}
@@ -97,7 +123,7 @@ def run_for_property(prop, rep, seed=0, jobs=16):
 
 def main():
     """python -m selftest.runner [PROP ...] : run the whole table and print a summary."""
-    from .mutations import MUTATIONS
+    MUTATIONS = all_variants()
     props = sys.argv[1:] or sorted({p for m in MUTATIONS for p in m["props"]})
     total = bad = 0
     for prop in props:
